@@ -96,8 +96,12 @@ bool Alarm::isEnabled() const {
 
 bool Alarm::enable() {
   if (state_ == State::kInited) {
-    if (onEnable())
+    if (onEnable()) {
+      //! 重新使能时要按当前时间算下一个时间点。如果沿用上一轮的 target_utc_sec_，
+      //! 那么 enable() -> disable() -> enable() 之后，还没到的那个时间点就被跳过了
+      target_utc_sec_ = 0;
       return activeTimer();
+    }
   }
 
   LogWarn("should initialize first");
